@@ -229,6 +229,62 @@ def random_history(rng, maxlen):
     return Gen(rng, max(4, length)).run()
 
 
+# ------------------------------------------------------------------ directed matrix
+TARGETS = {
+    "empty_default": ["newd 1"],
+    "empty_cleared": ["new 1 3 1", "clr 1"],
+    "owner": ["new 1 3 1"],
+    "owner_shared": ["new 1 3 1", "cp 10 1"],
+    "view": ["new 10 5 100", "sl 1 10 1 3 1"],
+    "view_parent_gone": ["new 10 5 100", "sl 1 10 1 3 1", "del 10"],
+    "strided_view": ["new 10 6 100", "sl 1 10 0 4 2"],
+    "extview": ["xnew 9 5 200", "ext 1 9 1 3"],
+    "fixedview": ["fnew 9 200", "fsl 1 9 1 3"],
+    "soft": ["new 10 3 100", "soft 1 10"],
+    "empty_view_holding_link": ["new 10 4 100", "sl 1 10 2 1 1"],
+    "empty_over_external": ["xnew 9 5 200", "ext 1 9 2 0"],
+}
+
+
+def sources(n):
+    return {
+        "owner": ["new 2 %d 50" % n],
+        "owner_shared": ["new 2 %d 50" % n, "cp 11 2"],
+        "view": ["new 11 6 50", "sl 2 11 1 %d 1" % n],
+        "view_parent_gone": ["new 11 6 50", "sl 2 11 1 %d 1" % n, "del 11"],
+        "extview": ["xnew 8 5 300", "ext 2 8 0 %d" % n],
+        "fixedslice": ["fnew 8 300", "fsl 2 8 0 %d" % (n - 1)],
+        "soft": ["new 11 %d 50" % n, "soft 2 11"],
+        "empty": ["newd 2"],
+        "empty_over_external": ["xnew 8 5 300", "ext 2 8 1 0"],
+    }
+
+
+def directed():
+    """every kind of target x every kind of source x every form of assignment / link / release, each followed by
+    changes of the source, the end of the external memory, a store through the target and an early destruction"""
+    out = []
+    tail = ["w 2 0 -9", "xw 8 0 -8", "w 1 0 77", "w 11 1 -7", "xend 8", "del 2", "w 1 1 78", "xend 9", "del 11", "del 10"]
+    for tname, tp in TARGETS.items():
+        for n in (3, 2):
+            for sname, sp in sources(n).items():
+                for form in ("ac", "am", "amfn", "amdup", "link"):
+                    out.append(tp + sp + ["%s 1 2" % form] + tail)
+                    out.append(tp + sp + ["%s 2 1" % form] + tail)
+                for form in ("acsl", "amsl", "linksl"):
+                    out.append(tp + sp + ["%s 1 2 0 %d 1" % (form, n - 1)] + tail)
+                    out.append(tp + sp + ["%s 1 2 0 %d 2" % (form, n - 1)] + tail)
+            out.append(tp + ["xnew 8 5 300", "amext 1 8 1 %d" % n] + tail)
+            out.append(tp + ["fnew 8 300", "amfix 1 8 0 %d" % (n - 1)] + tail)
+            out.append(tp + ["amfresh 1 %d 60" % n] + tail)
+        for selfop in ("ac 1 1", "am 1 1", "amfn 1 1", "amdup 1 1", "link 1 1", "amsl 1 1 0 1 1", "acsl 1 1 1 2 1", "linksl 1 1 0 1 1"):
+            out.append(tp + [selfop] + tail)
+        for op in ("clr 1", "rs 1 2 0", "rs 1 0 0", "rs 1 -1 0", "rsi 1 -3 0", "rsi 1 4 9", "del 1", "fnrs 1 2", "fnw 1 0 5",
+                   "cp 3 1", "cpc 3 1", "cpm 3 1", "sl 3 1 0 1 1", "soft 3 1"):
+            out.append(tp + [op, "w 1 0 5", "w 3 0 6", "w 10 1 7", "del 10", "w 1 1 8", "w 3 1 9", "xend 9", "del 1", "w 3 0 1"])
+    return out
+
+
 # ------------------------------------------------------------------ parsing the observation line
 OBJ_RE = re.compile(r"(\d+)\(st=(\S+) nl=(\S+) at=(\S+) L=(\S+) len=(\d+)(?: str=(-?\d+) v=(\S+))?\)")
 EXT_RE = re.compile(r"X(\d+):([01]):(\S*)")
@@ -593,7 +649,9 @@ def judge(ctx, exe, results, label):
         ctx.count_case(tuple(h), nontrivial=nontriv, sample={"history": h[:10], "result": kind})
         if kind == "oracle":
             nbad += 1
-            if len([v for v in ctx.violations if not v[2]]) < 2 and nbad <= 2:
+            key = re.sub(r"-?\d+", "#", msg.split(":")[0])[:70]      # one report per kind of failure
+            if key not in ctx.reported and len(ctx.reported) < 4:
+                ctx.reported.add(key)
                 shr = shrink(exe, h, True)
                 il, rc, err = run_one(exe, shr)
                 bad = assess(shr, il, rc, err)
@@ -662,6 +720,7 @@ def run(ctx, replay):
                              required=[NS + r for r in REQUIRED])
     exe = vbuild.build("storage", SRC)
     ctx.pending = []
+    ctx.reported = set()
     workers = min(12, os.cpu_count() or 4)
     if replay:
         r = json.load(open(replay))
@@ -673,14 +732,18 @@ def run(ctx, replay):
     corpus = load_corpus()
     ctx.notes["corpus_cases"] = len(corpus)
     bad = run_hists(ctx, exe, corpus, "corpus", 1)
+    dm = directed()
+    ctx.notes["directed_cases"] = len(dm)
+    bad += run_hists(ctx, exe, dm, "directed", workers)
     hists = [random_history(ctx.rng, maxlen) for _ in range(nhist)]
     bad += run_hists(ctx, exe, hists, "default", workers)
     ctx.cov["rule"] = ("life-cycle histories over a pool of Array<1,int>, external blocks and FixedArray<int,false,4>: %d random histories of up "
-                       "to %d operations (+%d corpus cases), ~28%% assignments (two thirds from temporaries: slices, arrays over external "
+                       "to %d operations (+%d corpus cases, +%d directed cases: every kind of target x source x form of "
+                       "assignment/link/release, each followed by changes of the source), ~28%% assignments (two thirds from temporaries: slices, arrays over external "
                        "memory, FixedArray slices, function results) usually followed by a change of the source, views and soft links "
                        "outliving parents, clear/resize of shared data, self-assignment/self-link, empty arrays, negative resize; every "
                        "history ends by destroying all arrays.  non-trivial = at least two sharing/assigning/releasing operations; "
-                       "distinct = different op list" % (nhist, maxlen, len(corpus)))
+                       "distinct = different op list" % (nhist, maxlen, len(corpus), len(dm)))
     ctx.cov["exhaustive"] = False
     ctx.assumptions += [
         "rank-1 int arrays; Array<2>, active arrays and SpecialMatrix follow the same Storage protocol but are not driven by this harness",
